@@ -761,6 +761,44 @@ func (g *gen) edits(r *hx.Rng, kind string, sd *suiteDef, signed map[string]inte
 			})
 		}
 
+		// TYPE changes: the option keeps its text but arrives as an object holding it as id (plus foreign members), as a
+		// one-element array, or as a number
+		for _, k := range []string{"created", "verificationMethod", "proofPurpose", "domain", "challenge", "type", "nonce", "creator"} {
+			k := k
+
+			sv, isStr := pm[k].(string)
+			if !isStr {
+				continue
+			}
+
+			tClass := "must-reject"
+			if _, isJWS := pm["jws"]; k == "nonce" && !isJWS {
+				tClass = "model" // the nonce is not part of the digest in the proofValue representation
+			}
+
+			add(fmt.Sprintf("opttype obj %s#%d", k, i), tClass, func(d map[string]interface{}) bool {
+				m, _ := get(d, proofPath(d, i)).(map[string]interface{})
+				m[k] = map[string]interface{}{"id": sv, "controller": "did:example:evil", "publicKeyBase58": "evil"}
+
+				return true
+			})
+			add(fmt.Sprintf("opttype arr %s#%d", k, i), tClass, func(d map[string]interface{}) bool {
+				m, _ := get(d, proofPath(d, i)).(map[string]interface{})
+				m[k] = []interface{}{sv}
+
+				return true
+			})
+
+			if k == "verificationMethod" || k == "created" {
+				add(fmt.Sprintf("opttype num %s#%d", k, i), "must-reject", func(d map[string]interface{}) bool {
+					m, _ := get(d, proofPath(d, i)).(map[string]interface{})
+					m[k] = json.Number("7")
+
+					return true
+				})
+			}
+		}
+
 		// other literals of the same instant: the digest is over the RECEIVED `created` literal (linked-data suites);
 		// Data Integrity re-formats the parsed time (the model decides there)
 		if cr := strOf(pm["created"]); strings.HasSuffix(cr, "Z") {
@@ -1143,6 +1181,14 @@ func replay(w *world, tr *hx.Trace, f string) {
 		edits := g.edits(r, kind, sd, signed, n, 1<<30)
 		if i != cd.DocIndex {
 			continue
+		}
+
+		if cd.Envelope != "" {
+			w.suiteSubset = nil
+			_, _, w.baseline = w.verifyParsed(kind, toJSON(signed), false)
+			w.runEnvelopes(tr, kind, sd, signed, cd.Seed, i)
+
+			return
 		}
 
 		for _, e := range edits {
